@@ -220,14 +220,14 @@ def run(c, chk):
                 continue
             # a helper split off a known function is reported under that function
             own = c.owners(f.name)
-            fname_ = sorted(own)[0] if len(own) == 1 else f.name
-            key = 'ignored-result:%s:%s' % (fname_, n)
-            a = next((x for x in allow_ign if x['function'] == fname_ and x['callee'] == n), None)
-            if a:
-                chk.ok('R18.3', key, 'allowed: ' + a['reason'], nontrivial=False)
-            elif key not in seen:
-                seen.add(key)
-                chk.fail('R18.3', key, c.where(call), '%s() ignores the result of %s(), which fails when an allocation fails' % (fname_, n))
+            for fname_ in (sorted(own) if own else [f.name]):     # (a worker shared by several entry points: once for each of them)
+                key = 'ignored-result:%s:%s' % (fname_, n)
+                a = next((x for x in allow_ign if x['function'] == fname_ and x['callee'] == n), None)
+                if a:
+                    chk.ok('R18.3', key, 'allowed: ' + a['reason'], nontrivial=False)
+                elif key not in seen:
+                    seen.add(key)
+                    chk.fail('R18.3', key, c.where(call), '%s() ignores the result of %s(), which fails when an allocation fails' % (fname_, n))
     chk.ok('R18.3', '%d call sites of functions that can fail on allocation' % nprop, 'result tested, returned or stored (exceptions listed)', sample=True)
     chk.floor('R18.3 propagation call sites', nprop, 30)
 
